@@ -1088,3 +1088,54 @@ def r11(cx):
 
 
 RS.explanation += ' On subshell entry every record of the trap table reaches GrandState::enter_subshell, no test in TrapSet::enter_subshell skips one (R11).'
+
+
+# ---------------------------------------------------------------------------------------
+# added after the audit C13h2 #4 (open finding: a program started with `exec` inherits a signal mask that blocks every trapped signal)
+@RS.rule('C11.R9c', 'K-ORDER', 'exec resets caught signals for the new program (POSIX: "signals set to be caught are set to the default action" - '
+         'and the shell keeps every signal that has a trap command BLOCKED outside its select loop, a mask that execve hands on): before '
+         'execve the dispositions of the command traps are reset through the signal system (which unblocks them), not only the internal ones')
+def r9c(cx):
+    F = cx.F
+    fn = 'yash_env::semantics::command::replace_current_process'
+    body = F.main_body(fn)
+    cx.fn(body.fn)
+    execs = Q.find_calls(body, [re.compile(r'::Exec::execve$'), re.compile(r'::execve$')])
+    cx.require(execs, 'replace_current_process no longer calls execve')
+
+    def resets_command_traps(callee, depth=2):
+        """A TrapSet / GrandState routine that looks at Action::Command and calls SignalSystem::set_disposition."""
+        bodies = F.logical(callee) if callee in F.by_root else []
+        sets = any(Q.find_calls(b, [re.compile(r'SignalSystem::set_disposition$'), re.compile(r'::set_disposition$')]) for b in bodies)
+        looks = False
+        for b in bodies:
+            du = Q.DefUse(b)
+            for u in b.live_blocks():
+                ec = Q.edge_condition(F, b, du, u)
+                if ec and ec[0]['k'] == 'discr' and re.search(r'trap::(\w+::)?Action', ec[0].get('ty') or ''):
+                    looks = True
+        if sets and looks:
+            return True
+        if depth:
+            for b in bodies:
+                for blk, t in b.calls():
+                    c = pp.callee(t)
+                    if c.startswith('yash_env::trap::') and c != callee and resets_command_traps(c.split('::{closure')[0], depth - 1):
+                        return True
+        return False
+
+    before = []
+    for eb, et in execs:
+        for blk, t in body.calls():
+            c = pp.callee(t)
+            if c.startswith('yash_env::trap::') and 'internal' not in c.split('::')[-1] and body.dominates(blk, eb) and resets_command_traps(c):
+                before.append((blk, t))
+    cx.site('%s: command traps reset (and thereby unblocked) before execve: %s' % (body.fn, [pp.callee(t).split('::')[-1] for b, t in before] or 'no'))
+    if not before:
+        cx.violation(fn, 'trapped-signals-stay-blocked-across-exec', 'replace_current_process removes only the shell\'s internal dispositions before '
+                     'execve; signals with a trap command stay blocked (the shell unblocks them only inside select) and the new program inherits '
+                     'that mask: `{ trap x USR1; exec sleep 3; } & kill -USR1 $!; wait $!` reports 0 after 3 s (SigBlk of the exec\'d process shows '
+                     'USR1), where dash and bash report "killed by SIGUSR1" at once', loc=body.loc(execs[0][1]))
+
+
+RS.explanation += ' Before execve the command traps are reset through the signal system, which unblocks them (R9c, open finding).'
